@@ -99,12 +99,19 @@ def battery(tier):
     return DESIGNED + terms
 
 
-def item_digests(terms, coord_perm=None, creation_order=None):
+def item_digests(terms, coord_perm=None, creation_order=None, after_failed_request=False, var_as_object=False):
     """One digest per battery item: every observable of every route at two points."""
     import smoothmath as sm
     import smoothmath.expression as smx
     from smoothmath import Partial, Differential, LocatedDifferential, Point, Derivative
     out = []
+    if after_failed_request:
+        # an earlier request in the same process that fails half-way through simplification (its constant
+        # fold overflows); whatever it leaves behind must not influence the answers that follow
+        for _ in range(3):
+            A.outcome(lambda: Derivative(smx.Multiply(smx.Exponential(smx.Constant(1000)), smx.Variable("x"))).as_expression())
+            A.outcome(lambda: smx.Logarithm(smx.Constant(-1)).at(Point()))
+            A.outcome(lambda: smx.Variable("x").at(Point()))
     if creation_order:
         for name in creation_order:       # "the order in which variables were first created"
             smx.Variable(name)
@@ -126,15 +133,19 @@ def item_digests(terms, coord_perm=None, creation_order=None):
                 else:
                     obs.append((label,) + tuple(str(u) for u in o[:2]))
             rec("at", lambda: A.build(t).at(mk()))
-            for v in vs + ["q"]:
-                rec(f"LD.{v}", lambda: LocatedDifferential(A.build(t), mk()).component(v))
-                rec(f"Df.late.at.{v}", lambda: Differential(A.build(t)).at(mk()).component(v))
-                rec(f"Df.early.at.{v}", lambda: Differential(A.build(t), compute_early=True).at(mk()).component(v))
-                rec(f"P.late.{v}", lambda: Partial(A.build(t), v).at(mk()))
-                rec(f"P.early.{v}", lambda: Partial(A.build(t), v, compute_early=True).at(mk()))
-        for v in vs + ["q"]:
-            rec(f"P.asexpr.{v}", lambda: Partial(A.build(t), v).as_expression())
-            rec(f"Df.early.comp.asexpr.{v}", lambda: Differential(A.build(t), compute_early=True).component(v).as_expression())
+            for vname in vs + ["q"]:
+                v = smx.Variable(vname) if var_as_object else vname
+                rec(f"LD.{vname}", lambda: LocatedDifferential(A.build(t), mk()).component(v))
+                rec(f"Df.late.at.{vname}", lambda: Differential(A.build(t)).at(mk()).component(v))
+                rec(f"Df.early.at.{vname}", lambda: Differential(A.build(t), compute_early=True).at(mk()).component(v))
+                rec(f"P.late.{vname}", lambda: Partial(A.build(t), v).at(mk()))
+                rec(f"P.early.{vname}", lambda: Partial(A.build(t), v, compute_early=True).at(mk()))
+                rec(f"Df.early.component_at.{vname}", lambda: Differential(A.build(t), compute_early=True).component_at(v, mk()))
+                rec(f"Df.late.component_at.{vname}", lambda: Differential(A.build(t)).component_at(v, mk()))
+        for vname in vs + ["q"]:
+            v = smx.Variable(vname) if var_as_object else vname
+            rec(f"P.asexpr.{vname}", lambda: Partial(A.build(t), v).as_expression())
+            rec(f"Df.early.comp.asexpr.{vname}", lambda: Differential(A.build(t), compute_early=True).component(v).as_expression())
         # whole-object observables whose text could leak an iteration order
         o = A.construct(lambda: Differential(A.build(t), compute_early=True))
         if o[0] == "ok":
@@ -158,6 +169,10 @@ def _config_job(job):
             return item_digests(_JOB_TERMS, coord_perm=k, creation_order=order[::-1])
     if kind == "coord":
         return item_digests(_JOB_TERMS, coord_perm=k)
+    if kind == "after-failed-request":
+        return item_digests(_JOB_TERMS, after_failed_request=True)
+    if kind == "variable-as-object":
+        return item_digests(_JOB_TERMS, var_as_object=True)
     return item_digests(_JOB_TERMS, creation_order=order)
 
 
@@ -313,6 +328,7 @@ def run_c18(tier, seed):
     jobs = [("ctl", oi, order) for oi, order in enumerate(orders)]
     jobs += [("coord", k, None) for k in range(1, 24, 5 if tier != "thorough" else 1)]
     jobs += [("create", 0, co) for co in (("w", "z", "y", "x"), ("y", "w", "x", "z"), ("z", "x", "w", "y"))]
+    jobs += [("after-failed-request", 0, None), ("variable-as-object", 0, None)]
     global _JOB_TERMS
     _JOB_TERMS = terms
     import multiprocessing as mproc
@@ -324,6 +340,10 @@ def run_c18(tier, seed):
             compare(f"set iteration order {order} + coordinate order #{k} + creation order {order[::-1]}", d)
         elif kind == "coord":
             compare(f"coordinate order #{k}", d)
+        elif kind == "variable-as-object":
+            compare("variables passed as Variable objects instead of names (argument spelling)", d)
+        elif kind == "after-failed-request":
+            compare("same process, after earlier requests that failed part-way (overflowing fold, DomainError, CoordinateMissing)", d)
         else:
             compare(f"creation order {order}", d)
     # (b) hash seeds in fresh interpreters
